@@ -774,6 +774,13 @@ open GeoVerif.Calendar in
 example : Valid 1752 9 2 ∧ Valid 1752 9 14 ∧ dateKey (1752, 9, 2) < dateKey (1752, 9, 14) ∧ dayRaw 1752 9 2 < dayRaw 1752 9 14 := by decide
 
 open GeoVerif.Calendar in
+/-- **`fractionalyear(yyyy-mm-dd)` lies in `[y, y + 1)`** for every valid date up to year 199999: the exact rational the code rounds is
+`y + n / den` with `0 ≤ n < den` (`n` = days since January 1, `den` = length of the year) -/
+theorem fractionalyear_range (y m d : Int) (h : Valid y m d) (hy : y ≤ 199999) :
+    ∃ n den, fracYear y m d = some (y, n, den) ∧ 0 ≤ n ∧ n < den :=
+  fracYear_range y m d h hy
+
+open GeoVerif.Calendar in
 /-- documented anchors: 0001-01-01 is day 1 and a Saturday; 1752-09-02 (Wednesday) is followed by 1752-09-14 (Thursday) = day 639799;
     2000-01-01 was a Saturday, 1970-01-01 a Thursday; 1700 and 1752 have a February 29, 1800 and 1900 do not, 2000 does -/
 theorem calendar_anchors :
